@@ -635,6 +635,12 @@ REAL_CALLS = [
     ("set", ("k", b"v"), {"noreply": False}), ("set_many", ({"a": b"1", "b": b"2"},), {"noreply": False}), ("set_multi", ({"a": b"1", "b": b"2"},), {"noreply": False}),
     ("delete", ("t",), {"noreply": False}), ("delete_many", (["t", "n"],), {"noreply": False}), ("delete_multi", (["t", "n"],), {"noreply": False}),
     ("incr", ("n", 2), {}), ("touch", ("t", 5), {"noreply": False}), ("add", ("fresh", b"v"), {"noreply": False}), ("gat", ("t", 7), {}),
+    # every argument passed by the name the wrapped method documents for it
+    ("get", (), {"key": "t", "default": None}), ("set", (), {"key": "k", "value": b"v", "expire": 0, "noreply": False, "flags": None}), ("delete", (), {"key": "t", "noreply": False}),
+    ("incr", (), {"key": "n", "value": 2, "noreply": False}), ("touch", (), {"key": "t", "expire": 5, "noreply": False}), ("get_many", (), {"keys": ["t", "n"]}),
+    ("set_many", (), {"values": {"a": b"1"}, "expire": 0, "noreply": False}), ("cas", (), {"key": "nokey", "value": b"v", "cas": b"1", "expire": 0, "noreply": False}),
+    ("raw_command", (), {"command": b"version", "end_tokens": b"\r\n"}), ("raw_command", (b"version",), {}), ("flush_all", (), {"delay": 0, "noreply": False}),
+    ("stats", ("settings",), {}), ("version", (), {}), ("cache_memlimit", (), {"memlimit": 64}),
 ]
 REAL_FILTERS = [({}, True), ({"retry_for": [OSError]}, True), ({"retry_for": [ConnectionError]}, True), ({"retry_for": [ValueError]}, False),
                 ({"do_not_retry_for": [OSError]}, False), ({"do_not_retry_for": [ValueError]}, True), ({"retry_for": [OSError], "do_not_retry_for": [BrokenPipeError]}, False)]
@@ -672,6 +678,11 @@ def check_real(case):
             rc = R.RetryingClient(c, attempts=case["attempts"], retry_delay=2, **fkw)
             if not hasattr(c, name):
                 return False, ["not-offered"]
+            import inspect
+            try:
+                inspect.signature(getattr(c, name)).bind(*args, **kw)
+            except TypeError:
+                return False, ["other-signature"]      # (this class spells the parameters otherwise)
             env.call(rc.get, "warm-up")
             n0 = len(env.server.log)
             if faulty:
